@@ -30,6 +30,7 @@ type C08Case struct {
 	End     string     `json:"end"` // eof | err | eofdata (last bytes returned together with io.EOF) | park (channel layer only)
 	Channel bool       `json:"channel"`
 	Consume string     `json:"consume,omitempty"` // how the consumer reads a message: "" readall | copy | tobytes
+	Zero    int        `json:"zero,omitempty"`    // every Zero-th transport read returns (0, nil) (not for the varlen decoder, which hands an empty read on)
 }
 
 func genC08(t *rapid.T) C08Case {
@@ -211,6 +212,9 @@ func genC08(t *rapid.T) C08Case {
 	}
 	c.Channel = rapid.IntRange(0, 19).Draw(t, "layer") == 0
 	c.Consume = rapid.SampledFrom([]string{"", "", "copy", "tobytes"}).Draw(t, "consume")
+	if !c.Channel {
+		c.Zero = rapid.SampledFrom([]int{0, 0, 0, 2, 3, 7}).Draw(t, "zero")
+	}
 	if c.Channel {
 		c.End = rapid.SampledFrom([]string{"eof", "err", "park"}).Draw(t, "end")
 	} else {
@@ -432,7 +436,10 @@ func runC08(c C08Case) (out core.Outcome) {
 		return core.Outcome{Inconclusive: "bad case: park needs the channel layer"}
 	}
 
-	fr := &wire.Fragmenter{Data: c.Stream, Cuts: c.Cuts, End: c.End}
+	fr := &wire.Fragmenter{Data: c.Stream, Cuts: c.Cuts, End: c.End, Zero: c.Zero}
+	if c.Zero > 0 {
+		cls.Add("empty-reads")
+	}
 	pos := 0
 	for call := 0; call < len(c.Stream)+3; call++ {
 		ref := cd.RefDecode(c.Stream[pos:], false)
